@@ -698,16 +698,22 @@ def sequence_of_docs(ctx, left, docs, right, dangle=False, force_break=False):
     will_break = force_break or minimum_output_len > MAX_PRACTICAL_RIBBON_WIDTH
 
     has_comment = any(is_commented(doc) for doc in docs)
+    # The dangling comma of a single-element tuple must be placed in front
+    # of the comment of a commented last element, not after it.
+    comma_before_last_comment = (
+        dangle and bool(docs) and is_commented(docs[-1])
+    )
     parts = []
     for idx, doc in enumerate(docs):
         last = idx == len(docs) - 1
 
         if is_commented(doc):
             comment_str = doc.annotation.value
+            needs_comma = not last or comma_before_last_comment
             # Try to fit the comment at the end of the same line.
             flat_version = concat([
                 doc,
-                COMMA if not last else NIL,
+                COMMA if needs_comma else NIL,
                 '  ',
                 commentdoc(comment_str),
                 HARDLINE if not last else NIL
@@ -719,7 +725,7 @@ def sequence_of_docs(ctx, left, docs, right, dangle=False, force_break=False):
                 commentdoc(comment_str),
                 HARDLINE,
                 doc,
-                COMMA if not last else NIL,
+                COMMA if needs_comma else NIL,
                 HARDLINE if not last else NIL
             ])
             parts.append(
@@ -737,7 +743,7 @@ def sequence_of_docs(ctx, left, docs, right, dangle=False, force_break=False):
                     concat([COMMA, LINE])
                 )
 
-    if dangle:
+    if dangle and not comma_before_last_comment:
         parts.append(COMMA)
 
     outer = (
